@@ -162,7 +162,7 @@ func c10Scenario(tier string, tags map[string]int, focus []string, deep bool, el
 		if fe == FEMap {
 			mode = x.Choose(2, "mode")
 		}
-		a := &Alpha{Tier: tier, Mode: mode, NoCatch: true, FE: true, SourceTag: fe.SourceTag()}
+		a := &Alpha{Tier: tier, Mode: mode, NoCatch: true, FE: true, SourceTag: fe.SourceTag(), NoBracket: hasBracketTag(tags)}
 		skel := c10Skel(fe, tags, deep)
 		zh.Reset()
 		c := BuildCase(x, a, skel, fm, elems)
@@ -395,6 +395,18 @@ func c10Items(tier string, mk func(tier string, tags map[string]int, focus []str
 				continue
 			}
 			items = append(items, Item{Name: fmt.Sprintf("uniform%d/focus{%s}", cfg, strings.Join(fs, ",")), MaxDevs: -1, Run: mk(tier, tv, fs, deep, 2)})
+		}
+	}
+	// (D) quick tier: the three-level record (a record inside a record inside the record) under the uniform
+	// source-tag assignments × ≤1 focus unit, so that keys below the second level are covered on every change
+	if !deep {
+		df := recordFields(true)
+		deepUnits := skelUnits(recordSkel(FEMap, nil, true), 2)
+		for _, cfg := range []int{2, 3, 7} {
+			tv := uniformTags(df, cfg)
+			for _, fs := range focusSets(deepUnits, 1) {
+				items = append(items, Item{Name: fmt.Sprintf("deep-record/uniform%d/focus{%s}", cfg, strings.Join(fs, ",")), MaxDevs: -1, Run: mk(tier, tv, fs, true, 2)})
+			}
 		}
 	}
 	// (C) the record variant with optional parts behind pointers (Ptr(Struct), Ptr(Int) next to a direct record),
